@@ -147,6 +147,7 @@ def core_step(ss: StepState, hash_recv: bool = True):
 class ProbeNode(BaseNode):
     def __init__(self, *a, idx: int = 0, trace: bool = True, hash_recv: bool = True, ts_shift: float = 0.0, **kw):
         super().__init__(*a, **kw)
+        self.stop_result = True  # what the optional stop() hook reports (False/None: "failed to stop", which the runtime only warns about)
         self.ts_shift = float(ts_shift)  # > 0: the step moves step_state.ts forward (documented: "adjust to the time the sensor data was taken")
         self.idx = idx
         self.trace = trace
@@ -158,6 +159,9 @@ class ProbeNode(BaseNode):
         if self.delay_override:
             delays.update(self.delay_override)
         return delays
+
+    def stop(self, timeout=None):
+        return self.stop_result
 
     def init_params(self, rng=None, graph_state=None):
         return PParams(srcs={name: jnp.int32(c.output_node.idx) for name, c in self.inputs.items()})
